@@ -9,6 +9,7 @@ Model = the code after the `fix:` commits (explicit `pending` flag in `ValueBack
 skipped, responses for removed remotes discarded).
 -/
 import SwimVerif.Proofs.NoFab
+import SwimVerif.Proofs.LinkLangDone
 
 set_option linter.unusedVariables false
 namespace SwimVerif.WT
@@ -131,52 +132,57 @@ theorem C04_unlinked_discards_pending (u : Uplinks) (reg : Registry) (l : Nat) (
 theorem C04_lane_not_found_frame (reg : Registry) (name : Nat) :
     specialWrite reg (.laneNotFound name) = ⟨some name, [.unlinked .notFound], none⟩ := rfl
 
-/-! Open (tied by correspondence + monitor only): the per-(remote, lane) frame language
-`(linked (event | synced)* unlinked)*` of the whole write task. `WT.Mon` is the decidable predicate run over
-implementation traces; the statement below is its core over the structured model trace. -/
+/-! ### The per-(remote, lane) frame language `(linked (event | synced)* unlinked)*` of the whole write task
 
-def frameOk (isOpen : Bool) : Note → Option Bool
-  | .linked => some true
-  | .unlinked .notFound => some isOpen
-  | .unlinked _ => if isOpen then some false else none
-  | .synced => if isOpen then some true else none
-  | .event _ => if isOpen then some true else none
+`langOk` (in `Proofs/LinkLang.lean`, with `frameOk`, `langFrames`, `wellFormed`, `lanesFresh`) is the core of
+`WT.Mon`, the decidable predicate run over implementation traces, over the structured model trace: frames come
+out of `done r` steps; per key `r * 100000 + name` a `linked` opens, `event` / `synced` / `unlinked` need an open
+key, `unlinked` closes, an `@laneNotFound` answer is allowed in any state and changes nothing. -/
 
-def langFrame (st : List (Nat × Bool)) (r : Nat) (f : Option Nat × Note) : Option (List (Nat × Bool)) :=
-  match f.1 with
-  | none => none
-  | some name => (frameOk ((alGet st (r * 100000 + name)).getD false) f.2).map (alSet st (r * 100000 + name))
-
-def langFrames (st : List (Nat × Bool)) (r : Nat) : List (Option Nat × Note) → Option (List (Nat × Bool))
-  | [] => some st
-  | f :: fs => match langFrame st r f with
-    | some st' => langFrames st' r fs
-    | none => none
-
-/-- Frames come out of `done r` steps only. -/
-def langOk : St → List (Nat × Bool) → List Ev → Bool
-  | _, _, [] => true
-  | s, st, e :: rest =>
-    let x := step s e
-    match e with
-    | .done r _ => (match langFrames st r x.2.frames with
-      | some st' => langOk x.1 st' rest
-      | none => false)
-    | _ => langOk x.1 st rest
-
-/-- Events refer to registered lanes and a remote id is attached at most once. -/
-def wellFormed : St → List Nat → List Ev → Bool
-  | _, _, [] => true
-  | s, seen, e :: rest =>
-    (match e with
-      | .event lane _ _ => decide (lane < s.reg.length)
-      | .laneFailed lane => decide (lane < s.reg.length)
-      | .attach r => !seen.contains r
-      | _ => true) &&
-    wellFormed (step s e).1 (match e with | .attach r => r :: seen | _ => seen) rest
-
-def C04_link_language_open : Prop :=
+/-- Full statement as first written: every well-formed event sequence is accepted. -/
+def C04_link_language : Prop :=
   ∀ (evs : List Ev), wellFormed {} [] evs = true → langOk {} [] evs = true
+
+/-- It is false of the model for inputs the statement does not exclude: (i) the same lane NAME registered twice
+(two lane ids share the frames' name: unlinking one closes the key while the other is still linked); … -/
+theorem C04_link_language_fails : ¬ C04_link_language := by
+  intro h
+  have := h [.lane 5 false, .lane 5 false, .attach 0, .event 1 (some 0) (.value [1]), .done 0 true, .done 0 true,
+    .link 0 5, .done 0 true, .unlink 0 5, .done 0 true, .event 1 (some 0) (.value [2]), .done 0 true] (by decide)
+  revert this
+  decide
+
+/-- … (ii) a lane name ≥ 100000 collides with another remote's key in the checker's own encoding
+`r * 100000 + name` (an artefact of the checker, not of the write task). -/
+theorem C04_link_language_fails_key_collision :
+    wellFormed {} [] [.lane 100000 false, .lane 0 false, .attach 0, .attach 1, .link 0 100000, .done 0 true,
+      .link 1 0, .done 1 true, .unlink 0 100000, .done 0 true, .event 1 (some 1) (.value [2]), .done 1 true] = true ∧
+    langOk {} [] [.lane 100000 false, .lane 0 false, .attach 0, .attach 1, .link 0 100000, .done 0 true,
+      .link 1 0, .done 1 true, .unlink 0 100000, .done 0 true, .event 1 (some 1) (.value [2]), .done 1 true] = false := by
+  decide
+
+/-- **Link language** (corrected statement): for every event sequence that is well formed (events name
+registered lanes, a remote id is attached at most once) and registers every lane name at most once, below the
+checker's key modulus (`lanesFresh`), the frames sent to each remote on each lane are accepted by the checker:
+`linked` before events, nothing after `unlinked` until relinked, `synced` only while linked, unknown lane ⇒
+`@laneNotFound` only. Proved by the inductive invariant `GInv` (`Proofs/LinkLangGInv.lean`): for every attached
+remote and lane name, write in flight ++ special queue is accepted from the key's current state and ends open
+whenever `Links` says linked or data are still buffered for the lane. -/
+theorem C04_link_language_partial (evs : List Ev) (hw : wellFormed {} [] evs = true)
+    (hf : lanesFresh {} evs = true) : langOk {} [] evs = true :=
+  langOk_of_ginv evs {} [] [] ginv_init hw hf
+
+/-- Non-vacuity: two remotes, three lanes, link / events with a busy writer / unlink + relink while data are
+buffered / unknown lane / lane failure / failed write / stop — well formed, fresh, and frames are delivered. -/
+example : wellFormed {} [] [.lane 0 true, .lane 1 false, .lane 2 false, .attach 0, .attach 1, .link 0 0, .link 1 0,
+    .event 0 none (.value [1]), .event 0 none (.value [2]), .done 0 true, .unlink 0 0, .link 0 0,
+    .event 0 (some 0) (.synced .value), .unknown 1 7, .done 0 true, .done 0 true, .done 1 true, .done 0 true,
+    .event 2 (some 1) (.map (.upd 1 [3])), .laneFailed 0, .done 1 true, .done 1 false, .stop, .done 0 true] = true ∧
+  lanesFresh {} [.lane 0 true, .lane 1 false, .lane 2 false, .attach 0, .attach 1, .link 0 0, .link 1 0,
+    .event 0 none (.value [1]), .event 0 none (.value [2]), .done 0 true, .unlink 0 0, .link 0 0,
+    .event 0 (some 0) (.synced .value), .unknown 1 7, .done 0 true, .done 0 true, .done 1 true, .done 0 true,
+    .event 2 (some 1) (.map (.upd 1 [3])), .laneFailed 0, .done 1 true, .done 1 false, .stop, .done 0 true] = true := by
+  decide
 
 /-! Non-vacuity -/
 example : (ureach [0] [.push 0 (.value [1]), .push 0 (.value [2]), .done]).inflight.isSome = true := by decide
